@@ -1,6 +1,12 @@
-/-! line-protocol handlers (stub: filled in when the suite is built) -/
+/-! line-protocol handlers for corr:robust (C15).  Readers that have a model are routed to that
+model's handlers (`v.parse`, `v.con`, `f.idx.r`, `f.idb.r`, `f.pw.r`, `f.gr.r`); for the library-backed
+readers (gzip, tar, YAML, JSON) the oracle "returned a result or an error, promptly" is evaluated by
+the harness and there is nothing for the model to add. -/
 namespace Apko.Driver.Robust
 
-def handle (_args : List String) : Option String := none
+def handle (args : List String) : Option String :=
+  match args with
+  | ["x.robust", _] => some "-\t-\t-"
+  | _ => none
 
 end Apko.Driver.Robust
